@@ -13,7 +13,9 @@ RULE = (
     "renumbered (a) as a Tree with the non-root ids permuted (sort_tree), (b) as a DataFrame whose "
     "rows are permuted arbitrarily and whose ids are arbitrary distinct integers with the root "
     "anywhere (swc_utils.sort_nodes / sort_nodes_), (c) as SWC text of such a table read with "
-    "sort_nodes=True and the extra columns requested. Oracle: ids 0..n-1, root 0, pid < id, tags form "
+    "sort_nodes=True and the extra columns requested (tables also with rows listed parents first while the ids count "
+    "down / are scattered, and with a gap-free id range whose first row is the root; tree objects also with one array "
+    "registered under two column names). Oracle: ids 0..n-1, root 0, pid < id, tags form "
     "a bijection, every node's parent tag equals its original parent tag, every column equal under "
     "the bijection, sort_nodes leaves its argument unchanged, sort_nodes_ edits it, re-sorting is "
     "again a valid relabelling and is the identity when no node has two children. "
@@ -34,6 +36,9 @@ def case_strategy(draw, tier):
     if form == "tree" and n >= 2 and draw(st.integers(0, 2)) == 0:
         # a tree object whose root is not node 0: what redirect_tree(sort=False) hands out
         case["reroot_first"] = draw(st.integers(1, n - 1))
+    if form == "tree":
+        # one measurement registered under two column names (the very same array object)
+        case["aliased"] = draw(st.integers(0, 2)) == 0
     if form != "tree":
         if draw(st.booleans()):
             case["ids"] = draw(st.lists(st.integers(0, 10 ** 5), min_size=n, max_size=n, unique=True))
@@ -41,6 +46,30 @@ def case_strategy(draw, tier):
             base = draw(st.sampled_from([0, 1, 5]))
             case["ids"] = [i + base for i in range(n)]
         case["rows"] = list(draw(st.permutations(list(range(n)))))
+        how = draw(st.integers(0, 5))
+        if how <= 1:
+            # rows listed parents first, while the ids count down along the rows (or are scattered): a table in
+            # traversal order whose ids do not grow from parent to child
+            case["rows"] = models.topo_order(t["parents"])
+            if how == 0:
+                base, step = draw(st.sampled_from([0, 1, 5])), draw(st.sampled_from([1, 1, 2]))
+                ids = [0] * n
+                for k, node in enumerate(case["rows"]):
+                    ids[node] = base + step * (n - 1 - k)
+                case["ids"] = ids
+            case["rows_mode"] = "parents-first-ids-not-growing"
+        elif how == 2:
+            # a gap-free id range whose first row is the root with the smallest id, the other rows shuffled
+            root = t["parents"].index(-1)
+            others = [i for i in range(n) if i != root]
+            base = draw(st.sampled_from([0, 1, 5]))
+            ids = [0] * n
+            ids[root] = base
+            for node, lab in zip(others, draw(st.permutations(list(range(1, n))))):
+                ids[node] = base + lab
+            case["ids"] = ids
+            case["rows"] = [root] + list(draw(st.permutations(others)))
+            case["rows_mode"] = "dense-ids-root-min-first"
     return case
 
 
@@ -64,10 +93,11 @@ def _check_relabelling(ctx, t, got, label, require_pid_lt=True):
         got_ptag = -1 if pids[new] == -1 else tags[pids[new]]
         ctx.check(want_ptag == got_ptag, f"{label}/parent-relation",
                   lambda: f"node tagged {tags[new]}: parent tag {got_ptag}, expected {want_ptag}")
-        for col in ("type", "x", "y", "z", "r", "w"):
-            ctx.check(float(got[col][new]) == float(np.float32(t[col][old])) or got[col][new] == t[col][old],
+        for col in ("type", "x", "y", "z", "r", "w") + (("w2",) if "w2" in got else ()):
+            src_col = "w" if col == "w2" else col
+            ctx.check(float(got[col][new]) == float(np.float32(t[src_col][old])) or got[col][new] == t[src_col][old],
                       f"{label}/column-carried", lambda: f"column {col} of node tagged {tags[new]}: "
-                                                          f"{got[col][new]} != {t[col][old]}")
+                                                          f"{got[col][new]} != {t[src_col][old]}")
 
 
 def _tree_cols(tree):
@@ -90,7 +120,9 @@ def run_case(case, ctx):
         already = all(p < i for i, p in enumerate(t["parents"]))
         ctx.cls("already-sorted" if already else "unsorted")
         ctx.nontrivial(n >= 4 and not already and has_furc)
-        tree = gen_tree.build_tree(t)
+        tree = gen_tree.build_tree(t, aliased=bool(case.get("aliased")))
+        if case.get("aliased"):
+            ctx.cls("one-array-under-two-column-names")
         if "reroot_first" in case:
             from swcgeom.core import redirect_tree
 
@@ -124,7 +156,8 @@ def run_case(case, ctx):
                      for r, node in enumerate(rows))
     ctx.cls("root-row-0" if root_row == 0 else "root-not-row-0",
             "already-sorted" if pos_sorted else "unsorted",
-            "noncontiguous-ids" if sorted(ids) != list(range(min(ids), min(ids) + n)) else "contiguous-ids")
+            "noncontiguous-ids" if sorted(ids) != list(range(min(ids), min(ids) + n)) else "contiguous-ids",
+            "rows:" + case.get("rows_mode", "shuffled"))
     ctx.nontrivial(n >= 4 and not pos_sorted and has_furc)
     cols = {
         "id": [ids[node] for node in rows],
@@ -182,5 +215,7 @@ SUBCHECKS = [
         required={"form:tree": 100, "form:table": 100, "form:table_": 100, "form:file": 100,
                   "root-not-row-0": 100, "noncontiguous-ids": 100, "unsorted": 200,
                   "no-furcation-fixed-point": 10, "tree-object-with-root-not-at-0": 60,
-                  "resort-with:sort_nodes_": 60, "file:fix_roots=somas": 30, "file:fix_roots=nearest": 30}),
+                  "resort-with:sort_nodes_": 60, "file:fix_roots=somas": 30, "file:fix_roots=nearest": 30,
+                  "one-array-under-two-column-names": 80, "rows:parents-first-ids-not-growing": 200,
+                  "rows:dense-ids-root-min-first": 100}),
 ]
